@@ -4,6 +4,7 @@ import (
 	"encoding/base64"
 	"fmt"
 	"os"
+	"strconv"
 	"strings"
 	"time"
 
@@ -32,17 +33,22 @@ type Sweep struct {
 	// EntryDeadline overrides Deadline for CPU-only entry points whose normal cost is microseconds
 	EntryDeadline map[string]time.Duration
 	// OnAbandon replaces the fixture of a store-touching entry point (set by the harness around such sweeps)
-	OnAbandon func()
-	pending   *Pending
-	idx       int
-	replay    *ReplayCase
-	hung      map[string]bool
-	Calls     int64
-	Panics    int64
-	stop      bool
-	perEntry  map[string]int64
-	ranCase   bool
-	samples   int
+	OnAbandon  func()
+	pending    *Pending
+	idx        int
+	replay     *ReplayCase
+	hung       map[string]bool
+	Calls      int64
+	Panics     int64
+	stop       bool
+	perEntry   map[string]int64
+	ranCase    bool
+	samples    int
+	seq        int             // number of cases of this worker considered so far (journal position)
+	resume     int             // cases below this position were executed by a predecessor process
+	skip       map[string]bool // cases convicted / set aside by the supervisor
+	journalPos int
+	reported   map[string]bool
 }
 
 func NewSweep(r *ev.Run, prop string) *Sweep {
@@ -53,6 +59,24 @@ func NewSweep(r *ev.Run, prop string) *Sweep {
 	} else if os.Getenv("VERIF_REPLAY") != "" {
 		// the replayed case belongs to another part of the check: nothing to do here
 		s.replay = &ReplayCase{Entry: "\x00other-part"}
+	}
+	s.skip = map[string]bool{}
+	if os.Getenv("VERIF_CRASH_REPRO") == "" {
+		s.resume, _ = strconv.Atoi(os.Getenv("VERIF_CRASH_RESUME"))
+		for _, v := range loadVerdicts() {
+			switch v.Kind {
+			case "violation":
+				// found by a predecessor process of this worker (which died later) or by the supervisor
+				r.Violation(v.Sig, v.What, v.Case)
+				if strings.Contains(v.Sig, "|process-killed|") && v.Case != nil {
+					s.skip[v.Case.Entry+"\x1f"+v.Case.Desc] = true
+				}
+			case "skip":
+				s.skip[v.Entry+"\x1f"+v.Desc] = true
+				r.Observation("inconclusive-process-death:"+v.Entry, map[string]any{"desc": v.Desc, "note": v.Note})
+				r.NotExhaustive("a case killed the sweep process once but not in isolation (inconclusive): " + v.Entry)
+			}
+		}
 	}
 	return s
 }
@@ -129,11 +153,25 @@ func (s *Sweep) Case(entry, desc string, sharded, store bool, prep func() ([]byt
 		s.stop = true
 		return Result{}, false
 	}
+	if s.replay == nil {
+		pos := s.seq
+		s.seq++
+		if pos < s.resume {
+			// executed by a predecessor process of this worker (its verdicts were re-reported at start)
+			s.R.Eval(entry + "|" + desc)
+			return Result{}, false
+		}
+		if s.skip[entry+"\x1f"+desc] {
+			s.R.Eval(entry + "|" + desc)
+			return Result{}, false
+		}
+		s.journalPos = pos
+	}
 	s.Calls++
 	s.perEntry[entry]++
 	input, f := prep()
-	if store {
-		s.pending.Set(entry, desc, input)
+	if s.replay == nil {
+		s.pending.Journal(s.journalPos, entry, desc, input)
 	}
 	deadline := s.Deadline
 	if d, ok := s.EntryDeadline[entry]; ok {
@@ -163,9 +201,6 @@ func (s *Sweep) Case(entry, desc string, sharded, store bool, prep func() ([]byt
 			s.R.Observation("slow-call:"+entry, map[string]any{"desc": desc, "seconds": res.Elapsed.Seconds(), "calibration_ms": cal.Seconds() * 1000})
 		}
 	}
-	if store {
-		s.pending.Clear()
-	}
 	s.R.Eval(entry + "|" + desc)
 	mk := func() ReplayCase {
 		rc := ReplayCase{Entry: entry, Desc: desc, Site: res.Site, Caller: res.Caller, Panic: res.Value, Stack: res.Stack}
@@ -189,7 +224,7 @@ func (s *Sweep) Case(entry, desc string, sharded, store bool, prep func() ([]byt
 			what += " (called from " + res.Caller + ")"
 		}
 		what += ": " + res.Value + " [case " + truncate(desc, 120) + "]"
-		s.R.Violation(s.Prop+"|"+entry+"|"+res.Site, what, mk())
+		s.violation(s.Prop+"|"+entry+"|"+res.Site, what, mk())
 	case res.TimedOut:
 		// reproduce: the statement is about non-termination, a single stuck call proves nothing. Store-touching
 		// entry points are reproduced on a fresh fixture (the abandoned call may still hold the store's lock).
@@ -217,7 +252,7 @@ func (s *Sweep) Case(entry, desc string, sharded, store bool, prep func() ([]byt
 		}
 		if n == 3 {
 			s.R.Outcome(entry + ":TIMEOUT")
-			s.R.Violation(s.Prop+"|"+entry+"|timeout", fmt.Sprintf("%s did not return within %s (reproduced 3x, each time on a fresh fixture) [case %s]", entry, grace, truncate(desc, 120)), mk())
+			s.violation(s.Prop+"|"+entry+"|timeout", fmt.Sprintf("%s did not return within %s (reproduced 3x, each time on a fresh fixture) [case %s]", entry, grace, truncate(desc, 120)), mk())
 			s.hung[entry] = true
 			// the abandoned goroutines keep running (and possibly allocating): end this worker's sweep as soon as possible
 			s.stop = true
@@ -230,7 +265,7 @@ func (s *Sweep) Case(entry, desc string, sharded, store bool, prep func() ([]byt
 		// the call itself judged another clause of the statement (e.g. "!state-changed: ...")
 		clause, detail, _ := strings.Cut(strings.TrimPrefix(res.Outcome, "!"), ":")
 		s.R.Outcome(entry + ":" + clause)
-		s.R.Violation(s.Prop+"|"+entry+"|"+clause, fmt.Sprintf("%s: %s%s [case %s]", entry, clause, truncate(detail, 300), truncate(desc, 120)), mk())
+		s.violation(s.Prop+"|"+entry+"|"+clause, fmt.Sprintf("%s: %s%s [case %s]", entry, clause, truncate(detail, 300), truncate(desc, 120)), mk())
 	default:
 		o := res.Outcome
 		if i := strings.IndexByte(o, '\n'); i >= 0 {
@@ -306,3 +341,20 @@ func (s *Sweep) JSON(entry, inst string, doc any, o enum.Options, pairs, store b
 		}
 	}
 }
+
+// violation reports to the collector and persists the verdict for a successor process of this worker.
+func (s *Sweep) violation(sig, what string, rc ReplayCase) {
+	if !s.reported[sig] {
+		if s.reported == nil {
+			s.reported = map[string]bool{}
+		}
+		s.reported[sig] = true
+		if s.replay == nil {
+			appendVerdict(verdict{Kind: "violation", Sig: sig, What: what, Case: &rc})
+		}
+	}
+	s.R.Violation(sig, what, rc)
+}
+
+// Done marks the journal: the sweep of this worker ended in an orderly way (the report follows).
+func (s *Sweep) Done() { s.pending.Done() }
